@@ -121,7 +121,7 @@ class VFG(object):
     # ---- nodes ----
     def node_of_place(self, body, pl):
         prog = self.prog
-        node = ("L", body.path, pl["l"])
+        node = ("L",) + tuple(body.local_key(pl["l"]))
         cur_ty = body.locals[pl["l"]]
         for e in pl["p"]:
             if e == "deref" or not isinstance(e, dict):
